@@ -51,7 +51,8 @@ SDS_KINDS = ['arg', 'argTmp', 'shell', 'defStr', 'defPath', 'defCd', 'file', 'fi
              'cleanup', 'equals', 'matches', 'exists', 'dirContents', 'stdoutFrom', 'mkDir', 'copy', 'cdAct']
 SYM_KINDS = ['strArg', 'listArg', 'listDef', 'shellStr', 'envStr', 'fileStr', 'progSym', 'timeoutInt', 'cleanupArg', 'exitCode',
              'numLines', 'lineNum', 'lineNums', 'equalsStr', 'matchesRx', 'pathExists', 'textMatcher', 'textTransformer',
-             'intMatcher', 'lineMatcher', 'textMatcherAnd', 'intMatcherOr', 'lineMatcherAnd', 'textTransformerSeq']
+             'intMatcher', 'lineMatcher', 'textMatcherAnd', 'intMatcherOr', 'lineMatcherAnd', 'textTransformerSeq',
+             'defStr', 'hereDoc', 'replaceStr', 'runArg', 'fileMatcher', 'filesMatcher']
 # (finding D13, fixed in /repo: the range of `filter -line-nums` in an instruction of a suite kept the value of the
 # first case of the run - the deviation LineNumsRangeCached of the specification, which TLC must refute in every run)
 # deviation -> (the invariant TLC must refute, the family that shows it)
@@ -160,7 +161,8 @@ def own_definitions(n):
         return ['def line-matcher V_S = line-num == 1', 'def text-matcher V_N = is-empty', 'def text-matcher V_L = is-empty',
                 'def line-matcher V_T = line-num == 1', 'def text-matcher V_RX = is-empty', 'def line-matcher V_P = line-num == 1',
                 'def string V_TM = is-empty', 'def string V_TT = strip', 'def string V_IM = 1', 'def string V_LM = 1',
-                'def string V_R = true', 'file -rel-tmp own.txt = s6', 'file -rel-tmp own6.txt = x']
+                'def string V_R = true', 'def string V_FM = x', 'def string V_FSM = x',
+                'file -rel-tmp own.txt = s6', 'file -rel-tmp own6.txt = x']
     return ['def string V_S = s%d' % n,
             'def string V_N = %s' % (n if n != 4 else 'x'),
             'def list V_L = a%d b%d' % (n, n),
@@ -172,6 +174,8 @@ def own_definitions(n):
             'def integer-matcher V_IM = == %d' % n,
             'def line-matcher V_LM = line-num >= %d' % n,
             'def program V_R = %% sh @HOME@/val2.sh s%d' % n,
+            'def file-matcher V_FM = contents equals s%d' % n,
+            'def files-matcher V_FSM = any file : name own%d.txt' % n,
             'file -rel-tmp own.txt = s%d' % n,
             'file -rel-tmp own%d.txt = x' % n]
 
@@ -193,6 +197,11 @@ def sym_lines(kind, tag):
         'fileStr': ['file -rel-tmp ks.txt = "@[V_S]@"', '% sh @HOME@/cat.sh ' + tag + ' @[EXACTLY_TMP]@/ks.txt'],
         'progSym': ['run @ V_R ' + tag],
         'cleanupArg': [val + '@[V_S]@'],
+        'defStr': ['def string K_S = "@[V_S]@"', val + '@[K_S]@'],
+        'hereDoc': ['file -rel-tmp kh.txt = <<EOT', '@[V_S]@', 'EOT', '% sh @HOME@/cat.sh ' + tag + ' @[EXACTLY_TMP]@/kh.txt'],
+        'replaceStr': ['file -rel-tmp kr.txt = "x" -transformed-by replace x @[V_S]@',
+                       '% sh @HOME@/cat.sh ' + tag + ' @[EXACTLY_TMP]@/kr.txt'],
+        'runArg': ['run % sh @HOME@/val.sh ' + tag + ' @[V_S]@'],
     }[kind]
 
 
@@ -214,6 +223,8 @@ SYM_ASSERT = {
     'intMatcherOr': ['exit-code ( V_IM || == 99 )'],
     'lineMatcherAnd': ['stdout -transformed-by filter ( V_LM && line-num <= 99 ) num-lines == 1'],
     'textTransformerSeq': ['contents -rel-tmp own.txt : -transformed-by ( identity | V_TT ) equals X'],
+    'fileMatcher': ['exists -rel-tmp own.txt : V_FM'],
+    'filesMatcher': ['dir-contents -rel-tmp . : V_FSM'],
 }
 
 SDS_ASSERT = {
